@@ -351,6 +351,31 @@ func (g *gen) mkStruct(i int) *Decl {
 		g.c.AddFeat("embedded-struct")
 		d.Fields = append(d.Fields, Field{Name: emb.Name, T: Ref("", emb.Name), Embedded: true})
 	}
+	// an embedded field that is not a struct stays an ordinary field named after its type
+	if !g.opt.SQL && g.chance(0.1) {
+		var cands []string
+		for _, e := range g.enums {
+			cands = append(cands, e.Name)
+		}
+		for _, n := range g.nameds {
+			if n.Under.K == "basic" {
+				cands = append(cands, n.Name)
+			}
+		}
+		if len(cands) > 0 {
+			n := pick(g.rng, cands)
+			dup := false
+			for _, f := range d.Fields {
+				if f.Name == n {
+					dup = true
+				}
+			}
+			if !dup {
+				g.c.AddFeat("embedded-non-struct")
+				d.Fields = append(d.Fields, Field{Name: n, T: Ref("", n), Embedded: true})
+			}
+		}
+	}
 	if g.hasSub && g.chance(0.05) {
 		g.c.AddFeat("embedded-sub-struct")
 		d.Fields = append(d.Fields, Field{Name: "SubStruct", T: Ref("sub", "SubStruct"), Embedded: true})
